@@ -244,6 +244,35 @@ def run_table(M):
             if not rr["error"] and not rr["raised"]:
                 T.append((k, None, tuple(tuple(e) for e in rr["events"]), rr["new"]))
         pytable[s] = (T, [e.lstrip("#") for e in (o["expected"] or [])])
+    # look-ahead windows: the helpers must skip exactly #Empty/#Comment/#TagLine and stop at the first other token
+    skip = ["Empty", "Comment", "TagLine"]
+    enders = {"ScenarioLine": (True, False), "ExamplesLine": (False, True), "Other": (False, False), "EOF": (False, False),
+              "StepLine": (False, False), "RuleLine": (False, False)}
+    for s, o in obs.items():
+        if "TagLine" not in o["order"]:
+            continue
+        for n in range(0, 4):
+            for arr in itertools.product(skip, repeat=n):
+                for ender, (la0, la1) in enders.items():
+                    following = [tok({k, "Other"}, 2 + j) for j, k in enumerate(arr)]
+                    if ender != "EOF":
+                        following.append(tok({ender, "Other"} if ender != "Other" else {"Other"}, 2 + n))
+                    rr = drive(s, tok({"TagLine"}), following)
+                    M.count("cells_probed")
+                    M.count("lookahead_windows_probed")
+                    want = expected_cell(table, s, "TagLine", la0, la1, {"TagLine"})
+                    got = None if rr["error"] else ([tuple(e) for e in rr["events"]], rr["new"])
+                    ok = (want is None and got is None) or (want is not None and got is not None and
+                                                             got[0] == [tuple(e) for e in want[0]] and got[1] == want[1])
+                    nread = n + 1
+                    if rr["la"] and rr["queue"] != nread:
+                        ok = False
+                    if not ok:
+                        M.violation("C02.lookahead", {"what": "look-ahead over a window of skipped lines decides differently from the grammar hint "
+                                                              "(skip #Empty/#Comment/#TagLine, stop at the first other token) or does not re-queue what it read",
+                                                      "state": s, "window": list(arr), "next": ender, "observed": got, "expected": want,
+                                                      "queue_after": rr["queue"], "tokens_in_window": nread},
+                                    {"kind": "cell", "state": s})
     # priority: a token matching two kinds takes the alternative that is tested first
     for s, o in obs.items():
         order = [k for i, k in enumerate(o["order"]) if k not in o["order"][:i]]
@@ -390,6 +419,8 @@ def plan(tier, seed):
         else:
             for b in LINE_KINDS:
                 specs.append({"family": "kinds", "prefix": [a, b], "L": L, "seed": seed, "n": 1})
+    for first in ("TagLine", "Comment", "Empty"):
+        specs.append({"family": "windows", "first": first, "L": 4 if q else 6, "seed": seed, "n": 1})
     specs += shards("guided", 3000 if q else 100000, 500 if q else 5000, seed, maxlen=9 if q else 14)
     LT = 3 if q else 4
     for a in range(len(TEXT_LINES)):
@@ -416,6 +447,17 @@ def run_shard(spec, M):
         if pre == ["Empty"]:
             check_kind_seq([], M)
         M.sample({"kinds": pre + ["..."], "L": L})
+    elif fam == "windows":
+        prefixes = [["FeatureLine"], ["FeatureLine", "ScenarioLine"], ["FeatureLine", "ScenarioLine", "StepLine"],
+                    ["FeatureLine", "ScenarioLine", "ExamplesLine", "TableRow"], ["FeatureLine", "RuleLine", "ScenarioLine", "StepLine", "TableRow"],
+                    ["FeatureLine", "BackgroundLine", "StepLine"], ["FeatureLine", "ScenarioLine", "Other"],
+                    ["FeatureLine", "RuleLine", "BackgroundLine", "StepLine", "DocStringSeparator", "DocStringSeparator"]]
+        terms = [["ExamplesLine"], ["ScenarioLine"], ["RuleLine"], [], ["Other"], ["StepLine"], ["ExamplesLine", "TagLine", "ScenarioLine"]]
+        for n in range(1, spec["L"] + 1):
+            for rest in itertools.product(("TagLine", "Comment", "Empty"), repeat=n - 1):
+                for pre in prefixes:
+                    for t in terms:
+                        check_kind_seq(pre + [spec["first"]] + list(rest) + t, M)
     elif fam == "guided":
         # longer sequences guided by the automaton: a valid prefix, then every kind of one-step extension, then a valid tail
         g = observe.grammar()
